@@ -405,10 +405,25 @@ func loadsFieldDeep(v ssa.Value, f *types.Var) bool {
 	if u, ok := v.(*ssa.UnOp); ok && u.Op == token.MUL {
 		if al, ok := u.X.(*ssa.Alloc); ok {
 			for _, ref := range *al.Referrers() {
-				if st, ok := ref.(*ssa.Store); ok && st.Addr == al && isLoadOfField(st.Val, f) {
+				if st, ok := ref.(*ssa.Store); ok && st.Addr == al && (isLoadOfField(st.Val, f) || loadsFieldDeep(st.Val, f)) {
 					return true
 				}
 			}
+		}
+	}
+	// a getter: a small function every return of which is a load of the field (possibly under the owner's lock)
+	if call, ok := v.(*ssa.Call); ok {
+		if g := call.Call.StaticCallee(); g != nil && len(g.Blocks) > 0 && len(g.Blocks) <= 4 {
+			rets := Returns(g)
+			if len(rets) == 0 {
+				return false
+			}
+			for _, ret := range rets {
+				if len(ret.Results) != 1 || !isLoadOfField(resolveLoad(ReturnValue(ret, 0)), f) {
+					return false
+				}
+			}
+			return true
 		}
 	}
 	return false
